@@ -125,8 +125,8 @@ Definition jac_pair (k : nat) (GV : list (list T) * list (list T)) (p q : nat)
   let a := col_dot k G p p in
   let b := col_dot k G q q in
   let g := col_dot k G p q in
-  let thr := nepsilon N * (nsqrt N a * nsqrt N b) in   (* not sqrt(a*b): a*b overflows binary32 *)
-  if orb (nleb N (nabs N g) thr) (neqb N g zr) then (GV, false)
+  let thr := (on + on) * nepsilon N * (nsqrt N a * nsqrt N b) in   (* not sqrt(a*b): a*b overflows binary32 *)
+  if orb (orb (nleb N (nabs N g) thr) (neqb N g zr)) (orb (nleb N a (nminpos N)) (nleb N b (nminpos N))) then (GV, false)
   else
     let two := on + on in
     let zeta := (b - a) / (two * g) in
